@@ -5,9 +5,17 @@
  * The load/save halves are the assembly stub below; the instruction bytes live in an RWX page and
  * are entered / left with plain jumps (which change no architectural state that is observed).
  * RSP is not loaded (the host stack is used), so tested instructions must not name RSP.
- * A batch of cases is executed in a forked child, results are returned through a MAP_SHARED
- * buffer; SIGFPE/SIGSEGV/SIGILL/SIGBUS/SIGTRAP are caught with sigsetjmp/siglongjmp and reported
- * per case; a child that dies anyway only loses the case it was executing.
+ * SIGFPE/SIGSEGV/SIGILL/SIGBUS/SIGTRAP are caught with sigsetjmp/siglongjmp and reported per case.
+ *
+ * Built as a small stand-alone server (main below): it is the child process in which all native
+ * execution happens (the checking process fork+execs it and never executes generated code itself);
+ * batches are exchanged through a MAP_SHARED file.  A server that dies anyway (uncatchable crash,
+ * 20 s alarm) only loses the case it was executing: the caller reads the progress word, marks that
+ * case 'child died' and starts a new server for the rest of the batch.  (A fork per batch was
+ * measured to cost ~0.2 ms per touched page in this sandbox's VM, i.e. more than the test itself.)
+ *   argv[1]:  shared batch file (mmap MAP_SHARED on both sides): page 0 progress word, then nx_case[]
+ *   startup:  server writes  u64 data-window address, u64 sizeof(nx_case)   on stdout
+ *   request:  u32 from, u32 n on stdin (cases already in the shared file)   reply: i32 (<0 error)
  */
 #define _GNU_SOURCE
 #include <signal.h>
@@ -16,6 +24,9 @@
 #include <string.h>
 #include <stdlib.h>
 #include <unistd.h>
+#include <errno.h>
+#include <fcntl.h>
+#include <sys/stat.h>
 #include <sys/mman.h>
 #include <sys/wait.h>
 
@@ -42,16 +53,16 @@ typedef struct {
     uint8_t mem_out[NX_WIN];
 } nx_case;
 
-__attribute__((visibility("hidden"))) nx_state nx_in, nx_out;
-__attribute__((visibility("hidden"))) uint64_t nx_saved_rsp;
-__attribute__((visibility("hidden"))) void *nx_codeptr;
+nx_state nx_in, nx_out;
+uint64_t nx_saved_rsp;
+void *nx_codeptr;
 void nx_tramp(void);
 void nx_tramp_back(void);
 
 __asm__(
 ".intel_syntax noprefix\n"
 ".text\n"
-".globl nx_tramp\n.hidden nx_tramp\n.type nx_tramp,@function\n"
+".globl nx_tramp\n.type nx_tramp,@function\n"
 "nx_tramp:\n"
 "  push rbx\n  push rbp\n  push r12\n  push r13\n  push r14\n  push r15\n"
 "  mov [rip+nx_saved_rsp], rsp\n"
@@ -67,7 +78,7 @@ __asm__(
 "  mov r14, [rax+112]\n  mov r15, [rax+120]\n"
 "  mov rax, [rax]\n"
 "  jmp qword ptr [rip+nx_codeptr]\n"
-".globl nx_tramp_back\n.hidden nx_tramp_back\n"
+".globl nx_tramp_back\n"
 "nx_tramp_back:\n"
 "  mov [rip+nx_out], rax\n"
 "  lea rax, [rip+nx_out]\n"
@@ -171,7 +182,7 @@ static void run_one(nx_case *c)
     memcpy(c->mem_out, data_win, NX_WIN);
 }
 
-static void child_main(nx_case *cases, uint32_t from, uint32_t n, volatile uint32_t *progress)
+static void install_handlers(void)
 {
     static uint8_t altstack[65536];
     stack_t ss = {.ss_sp = altstack, .ss_size = sizeof(altstack), .ss_flags = 0};
@@ -188,52 +199,86 @@ static void child_main(nx_case *cases, uint32_t from, uint32_t n, volatile uint3
     sigset_t set;
     sigemptyset(&set);
     sigprocmask(SIG_SETMASK, &set, NULL);
-    for (uint32_t i = from; i < n; i++) {
-        *progress = i;
-        alarm(20);
-        run_one(&cases[i]);
-    }
-    *progress = n;
-    _exit(0);
 }
 
-/* cases: caller-owned array (copied to / from a shared mapping).  Returns number of child
- * processes used (>=1), or <0 on error. */
-int nx_run_batch(nx_case *cases, uint32_t n)
+static int read_all(int fd, void *buf, size_t n)
 {
+    uint8_t *p = buf;
+    while (n) {
+        ssize_t r = read(fd, p, n);
+        if (r == 0)
+            return -1;
+        if (r < 0) {
+            if (errno == EINTR)
+                continue;
+            return -1;
+        }
+        p += r;
+        n -= (size_t)r;
+    }
+    return 0;
+}
+
+static int write_all(int fd, const void *buf, size_t n)
+{
+    const uint8_t *p = buf;
+    while (n) {
+        ssize_t r = write(fd, p, n);
+        if (r < 0) {
+            if (errno == EINTR)
+                continue;
+            return -1;
+        }
+        p += r;
+        n -= (size_t)r;
+    }
+    return 0;
+}
+
+int main(int argc, char **argv)
+{
+    /* argv[1]: path of the shared batch file (created and sized by the caller); layout: page 0 =
+     * progress word, then the nx_case array.  This process is the isolated child: if a tested
+     * instruction kills it, the caller reads the progress word, marks that case and starts a new one. */
+    if (argc < 2)
+        return 1;
     if (nx_init())
-        return -1;
-    size_t sz = sizeof(nx_case) * (size_t)n + 4096;
-    uint8_t *sh = mmap(NULL, sz, PROT_READ | PROT_WRITE, MAP_SHARED | MAP_ANONYMOUS, -1, 0);
+        return 2;
+    signal(SIGPIPE, SIG_IGN);
+    int fd = open(argv[1], O_RDWR);
+    if (fd < 0)
+        return 6;
+    struct stat stt;
+    if (fstat(fd, &stt))
+        return 6;
+    size_t cap = (size_t)stt.st_size;
+    uint8_t *sh = mmap(NULL, cap, PROT_READ | PROT_WRITE, MAP_SHARED | MAP_POPULATE, fd, 0);
     if (sh == MAP_FAILED)
-        return -2;
+        return 4;
+    close(fd);
+    install_handlers();
     volatile uint32_t *progress = (volatile uint32_t *)sh;
     nx_case *sc = (nx_case *)(sh + 4096);
-    memcpy(sc, cases, sizeof(nx_case) * (size_t)n);
-    for (uint32_t i = 0; i < n; i++)
-        sc[i].status = 0xff;
-    uint32_t from = 0;
-    int nchild = 0;
-    while (from < n) {
-        *progress = from;
-        pid_t pid = fork();
-        if (pid < 0) {
-            munmap(sh, sz);
-            return -3;
+    uint64_t hello[2] = {nx_data_addr(), sizeof(nx_case)};
+    if (write_all(1, hello, sizeof(hello)))
+        return 3;
+    for (;;) {
+        uint32_t req[2];                /* from, n: run cases from..n-1 */
+        if (read_all(0, req, 8) || req[1] == 0)
+            return 0;
+        int32_t rc = 1;
+        if (sizeof(nx_case) * (size_t)req[1] + 4096 > cap)
+            rc = -9;
+        else {
+            for (uint32_t i = req[0]; i < req[1]; i++) {
+                *progress = i;
+                alarm(20);
+                run_one(&sc[i]);
+            }
+            alarm(0);
+            *progress = req[1];
         }
-        if (pid == 0)
-            child_main(sc, from, n, progress);
-        nchild++;
-        int st = 0;
-        while (waitpid(pid, &st, 0) < 0)
-            ;
-        uint32_t p = *progress;
-        if (p >= n)
-            break;
-        sc[p].status = 0xfe;      /* the child died while executing case p */
-        from = p + 1;
+        if (write_all(1, &rc, 4))
+            return 5;
     }
-    memcpy(cases, sc, sizeof(nx_case) * (size_t)n);
-    munmap(sh, sz);
-    return nchild;
 }
